@@ -119,6 +119,13 @@ class Ledger(object):
         new = (q.nr - (self.s0[p] + self.ackd[p])) % 16
         pending = self.tx[p] - self.ackd[p]
         obl.append((new <= pending, "acknowledges-more-than-received:" + n))
+        # the receive buffer of an end equals the window it announced, so the
+        # buffer cannot overflow iff  unread + in flight + remaining credit
+        # = RW + acknowledged - taken <= RW: N(R) may only cover I PDUs the
+        # application has taken with recv()
+        taken = len(self.got[e]) - self.ackd[p]
+        obl.append((new <= taken,
+                    "acknowledges-message-not-yet-taken-by-recv:" + n))
         sx.check_all(obl)
         new = sx.concrete(new)
         if new:
@@ -174,6 +181,7 @@ class Pair(object):
         self.sx, self.ends, self.led = sx, ends, led
         self.link_miu = link_miu
         self.busy = {"A": False, "B": False}
+        self.inflight = 0       # I PDUs of the frame being delivered
 
     # overridden by the LLC layer
     def do_send(self, e, m, flags):
@@ -250,6 +258,14 @@ class Pair(object):
             for x in (q if q.name == "AGF" else [q]):
                 self.led.crossing(e, x)
                 out.append(x.name)
+                if x.name == "I" and not self.led.closed:
+                    # enqueue() drops an I PDU (after advancing V(R)) when the
+                    # receive queue is full: never between conforming ends
+                    d = self.ends[OTHER[e]]
+                    room = d.recv_buf - len(d.recv_queue) - self.inflight
+                    self.sx.check(room > 0, "i-pdu-discarded-receive-buffer-full")
+                    self.inflight += 1
+            self.inflight = 0
             self.deliver(OTHER[e], q)
         return out
 
@@ -474,6 +490,9 @@ def partitions(tier):
             fn=fn, params=dict(prefix=prefix, k=k, table=table, **kw)))
     WARM1 = ["sendA", "sendA", "xferA", "sendB"]
     WARM2 = ["sendB", "xferB", "recvA", "sendB", "xferB"]
+    # lagging reader: two messages arrived at B, one taken; what follows
+    # includes the voluntary acknowledgement and the next burst
+    LAG = ["sendA", "sendA", "xferA", "xferA", "recvB"]
     if tier == "quick":
         for a in OPS_CORE:
             for b in OPS_CORE:
@@ -485,6 +504,10 @@ def partitions(tier):
         for a in OPS_ACKS:
             add("dlc_pair", [a], 2, "acks", warm=["sendA", "xferA", "recvB"])
         for a in OPS_CORE:
+            add("dlc_pair", [a], 2, "core", warm=LAG)
+        add("llc_pair", LAG + ["xferB"], 2, "core", agf=1)
+        add("llc_pair", LAG + ["xferB"], 2, "core", agf=0)
+        for a in OPS_CORE:
             add("llc_pair", [a], 2, "core", agf=1)
             add("llc_pair", [a], 2, "core", agf=0)
         for b in ("closeA", "busyB", "sendbigA"):
@@ -493,6 +516,12 @@ def partitions(tier):
         for a in OPS_ACKS:
             for b in OPS_ACKS:
                 add("dlc_pair", [a, b], 3, "acks", warm=["sendA", "xferA", "recvB"])
+        for a in OPS_CORE:
+            for b in OPS_CORE:
+                add("dlc_pair", [a, b], 2, "core", warm=LAG)
+        for a in ("xferB", "sendA", "recvB"):
+            add("llc_pair", LAG + [a], 3, "core", agf=1)
+            add("llc_pair", LAG + [a], 3, "core", agf=0)
         for a in OPS_CORE:
             for b in OPS_CORE:
                 add("dlc_pair", [a, b], 3, "core", warm=[])
@@ -515,7 +544,7 @@ MUST_REACH = ["send:accepted", "send:EMSGSIZE", "send:window-full",
               "recv:message", "recv:nothing", "wire:I", "wire:RR", "wire:RNR",
               "wire:ack", "drained", "closed", "llc-pair-established", "acks:yes"]
 BOUNDS = {
-    "quick": "DataLinkConnection pair: RW of both ends symbolic 0..15, initial sequence variables of both directions symbolic 0..15, connection MIU of both ends symbolic 128..2175; histories of up to 4 operations from the 6 core ones {send on A/B, recv on A/B, link exchange A->B / B->A}, up to 3 from 9 (adds 129-octet send, receiver-busy toggle on B, close on A), up to 3 core operations after a 4-operation warm-up, up to 3 from {xfer, poll('acks'), send, recv} after a 3-operation warm-up; afterwards link exchanges and reads until quiescent.  LogicalLinkController pair: real listen/connect/accept handshake over collect()/dispatch(), link MIU symbolic 128..2175, aggregation on/off, up to 3 core operations",
+    "quick": "DataLinkConnection pair: RW of both ends symbolic 0..15, initial sequence variables of both directions symbolic 0..15, connection MIU of both ends symbolic 128..2175; histories of up to 4 operations from the 6 core ones {send on A/B, recv on A/B, link exchange A->B / B->A}, up to 3 from 9 (adds 129-octet send, receiver-busy toggle on B, close on A), up to 3 core operations after a 4-operation warm-up, up to 3 from {xfer, poll('acks'), send, recv} after a 3-operation warm-up, up to 3 core operations after the 5-operation 'lagging reader' warm-up (two messages arrived, one taken); afterwards link exchanges and reads until quiescent.  LogicalLinkController pair: real listen/connect/accept handshake over collect()/dispatch(), link MIU symbolic 128..2175, aggregation on/off, up to 3 core operations",
     "thorough": "as quick with up to 5 core operations (also after two warm-up prefixes), up to 6 of the one-direction operations {send A, xfer A, xfer B, recv B}, 2 fixed (14 x 9; adds blocking send, poll('acks'), busy on A, close on B, 129-octet send on B) + 2 from 9, up to 5 of the acknowledgement-counter operations, LLC pair histories of up to 4 operations",
 }
 OUTSIDE = ["real thread schedules of blocking application calls against the two link run loops (the blocking half of the property's quantifier): a call that reaches Condition.wait() is an event here, not a sleeping thread",
